@@ -371,6 +371,72 @@ def _sim_sendfile(out_fd, in_fd, offset, count, *a, **kw):
     return _real_sendfile(out_fd, in_fd, offset, count, *a, **kw)
 
 
+import mmap as _mmap_mod
+
+_real_mmap = _mmap_mod.mmap
+
+
+class SimMmap:
+    """A shared mapping of a simulated file: a window onto the inode's bytearray.  Writing
+    through it changes the file without any write() - exactly what a real MAP_SHARED does."""
+
+    def __init__(self, data, offset, length, writable, disk):
+        if offset + length > len(data):
+            raise ValueError("mmap length is greater than file size")
+        self._mv = memoryview(data)[offset:offset + length]
+        if not writable:
+            self._mv = self._mv.toreadonly()
+        self._disk = disk
+        disk.counts["mmap"] = disk.counts.get("mmap", 0) + 1
+
+    def __buffer__(self, flags):
+        return self._mv
+
+    def __len__(self):
+        return len(self._mv)
+
+    def flush(self, *a):
+        return None
+
+    def close(self):
+        try:
+            self._mv.release()
+        except BufferError:
+            pass
+
+    @property
+    def closed(self):
+        return False
+
+
+def _sim_mmap(fileno, length, *a, **kw):
+    if _DISK is not None and isinstance(fileno, int) and fileno >= FD_BASE:
+        raw = _DISK.open_handles.get(fileno - FD_BASE)
+        if raw is None:
+            raise OSError(errno.EBADF, "Bad file descriptor")
+        access = kw.get("access", _mmap_mod.ACCESS_DEFAULT)
+        offset = kw.get("offset", 0)
+        writable = access in (_mmap_mod.ACCESS_WRITE, _mmap_mod.ACCESS_DEFAULT) and raw._w
+        if access == _mmap_mod.ACCESS_COPY:
+            return memoryview(bytearray(raw.data[offset:offset + (length or len(raw.data) - offset)]))
+        return SimMmap(raw.data, offset, length or len(raw.data) - offset, writable, _DISK)
+    return _real_mmap(fileno, length, *a, **kw)
+
+
+_real_fsync = os.fsync
+_real_fdatasync = getattr(os, "fdatasync", None)
+
+
+def _sim_fsync(fd):
+    if hasattr(fd, "fileno"):
+        fd = fd.fileno()
+    if _DISK is not None and isinstance(fd, int) and fd >= FD_BASE:
+        if (fd - FD_BASE) not in _DISK.open_handles:
+            raise OSError(errno.EBADF, "Bad file descriptor")
+        return None  # the simulated disk models visibility, not durability
+    return _real_fsync(fd)
+
+
 def _sim_lseek(fd, pos, how):
     if _DISK is not None and isinstance(fd, int) and fd >= FD_BASE:
         raw = _DISK.open_handles.get(fd - FD_BASE)
@@ -496,6 +562,10 @@ def install(disk):
         os.mkdir = _sim_mkdir
         os.fstat = _sim_fstat
         os.lseek = _sim_lseek
+        os.fsync = _sim_fsync
+        _mmap_mod.mmap = _sim_mmap
+        if _real_fdatasync is not None:
+            os.fdatasync = _sim_fsync
         if _real_sendfile is not None:
             os.sendfile = _sim_sendfile
 
@@ -520,5 +590,9 @@ def uninstall():
     os.mkdir = _real_mkdir
     os.fstat = _real_fstat
     os.lseek = _real_lseek
+    os.fsync = _real_fsync
+    _mmap_mod.mmap = _real_mmap
+    if _real_fdatasync is not None:
+        os.fdatasync = _real_fdatasync
     if _real_sendfile is not None:
         os.sendfile = _real_sendfile
